@@ -85,7 +85,7 @@ PROPS = {
         "title": "foreign SYN answered by BadCluster only, state untouched but the own heartbeat; rejection terminal; over every schedule of a routed network (loss, duplication, reordering, cross-cluster SYNs) no node ever holds a copy of a member of a cluster with a different id",
     },
     "C17": {
-        "suites": [("select", 60, 600)],
+        "suites": [("select", 60, 600), ("round", 40, 300)],
         "title": "selection bounds, forced seed when isolated, forced dead peer when dead outnumber live, for every random-generator answer",
     },
     "C18": {
